@@ -500,10 +500,12 @@ def synthetic_endpoint_queries(prog, rep, RID):
     from rules.semantic import enclosing_tests
     f = prog.own_method("AbstractSourceSinkGraph", "_augment_with_source_sink")
     n = 0
+    from rules.common import local_single_defs
+    alias = {k: norm(v) for k, v in local_single_defs(f.node).items() if norm(v) in ("self.source", "self.sink")}
     for c in calls_in(f.node):
         d = dotted(c.func) or ""
         if d in ("self.out_edges", "self.in_edges", "self.edges", "self.successors", "self.predecessors", "self.out_degree", "self.in_degree") and \
-                c.args and norm(c.args[0]) in ("self.source", "self.sink"):
+                c.args and (norm(c.args[0]) in ("self.source", "self.sink") or norm(c.args[0]) in alias):
             n += 1
             x = norm(c.args[0])
             key = f"AbstractSourceSinkGraph._augment_with_source_sink:{d[5:]}({x})"
